@@ -2,6 +2,7 @@ package main
 
 import (
 	"fmt"
+	"golang.org/x/tools/go/ssa/ssautil"
 	"os"
 	"sort"
 	"strings"
@@ -374,7 +375,16 @@ func replaceTable(prog *ssa.Program, cfg *Config) map[string]*ssa.Function {
 			}
 		}
 	}
+	all := map[string]bool{}
+	for f := range ssautil.AllFunctions(prog) {
+		all[f.String()] = true
+	}
 	for from, to := range cfg.Replace {
+		if !all[from] {
+			// e.g. a promoted method must be named by the type that declares it
+			fmt.Fprintf(os.Stderr, "FATAL: function to replace not found in the program: %s\n", from)
+			os.Exit(3)
+		}
 		if f, ok := byName[to]; ok {
 			tab[from] = f
 		} else {
